@@ -20,30 +20,30 @@ import (
 )
 
 type traceObs struct {
-	Empty bool     `json:"empty"`
-	Total int64    `json:"total"`
-	NBins int      `json:"nbins"`
-	Min   int      `json:"min"`
-	Max   int      `json:"max"`
-	Full  bool     `json:"full"`
+	Empty bool       `json:"empty"`
+	Total int64      `json:"total"`
+	NBins int        `json:"nbins"`
+	Min   int        `json:"min"`
+	Max   int        `json:"max"`
+	Full  bool       `json:"full"`
 	Bins  [][2]int64 `json:"bins"`
 	Kar   [][2]int64 `json:"kar"`
 }
 
 type traceEvent struct {
-	Op     string      `json:"op"`
-	S      int         `json:"s"`
-	T      int         `json:"t"`
-	I      int         `json:"i"`
-	W      int64       `json:"w"`
-	Num    int         `json:"num"`
-	Den    int         `json:"den"`
-	Obs    *traceObs   `json:"obs,omitempty"`
-	ArgObs *traceObs   `json:"argobs,omitempty"`
-	Alloc  int         `json:"alloc"`
+	Op     string       `json:"op"`
+	S      int          `json:"s"`
+	T      int          `json:"t"`
+	I      int          `json:"i"`
+	W      int64        `json:"w"`
+	Num    int          `json:"num"`
+	Den    int          `json:"den"`
+	Obs    *traceObs    `json:"obs,omitempty"`
+	ArgObs *traceObs    `json:"argobs,omitempty"`
+	Alloc  int          `json:"alloc"`
 	Lay    *traceLayout `json:"lay,omitempty"`
-	Kinds  []ModelKind `json:"kinds,omitempty"`
-	Real   []string    `json:"real,omitempty"` // informational: real type per object
+	Kinds  []ModelKind  `json:"kinds,omitempty"`
+	Real   []string     `json:"real,omitempty"` // informational: real type per object
 }
 
 type traceLayout struct {
@@ -171,12 +171,12 @@ func observeForTrace(s store.Store, rng *rand.Rand, forceFull bool) (*traceObs, 
 }
 
 type traceGenOpts struct {
-	Layout bool // also validate the recorded array layout against DenseImpl.tla (Trace_Dense)
-	MaxWidth int // bound on the width of index clusters (array-level validation copies whole arrays per event)
-	Events int
-	Limits []int // bin limits offered to collapsing objects
-	Kinds  []string
-	Ops    []string
+	Layout   bool // also validate the recorded array layout against DenseImpl.tla (Trace_Dense)
+	MaxWidth int  // bound on the width of index clusters (array-level validation copies whole arrays per event)
+	Events   int
+	Limits   []int // bin limits offered to collapsing objects
+	Kinds    []string
+	Ops      []string
 }
 
 // recordStoreTrace runs one random history on real stores and appends its events to w.
